@@ -15,6 +15,7 @@ func wrapCase(term string) string { return term }
 
 // latency histories belong to C15
 func addLatCase(e *emitter, c *Case) {}
+func addClatCase(e *emitter, c *Case) {}
 
 var allTargets = []string{"t", "u", "v", "w"}
 
